@@ -129,7 +129,8 @@ def readme():
     lines += ["", "`caught` = exit 1 with `VIOLATION property=… replay=…` and a failing input; `caught(no-failing-input-found)` = the",
               "correspondence broke but the oracle found no input on which the property itself fails.",
               "History: the first run of this table missed C03-B, C04-A, C07-B, C10-A, C11-A, C11-B, C12-A, C16-B, C17-A and C19-B;",
-              "the generators/oracles were strengthened (see DESIGN.md section 10) until every change is caught."]
+              "round 3 (-E/-F) first missed C01-E, C03-E, C03-F, C04-E, C04-F, C10-E, C13-E, C14-F, C16-F, C18-E, C20-E;",
+              "the generators/oracles/models were strengthened (see DESIGN.md section 10) until every change is caught."]
     (SEEDED / "README.md").write_text("\n".join(lines) + "\n")
 
 
